@@ -33,6 +33,38 @@ func main() {
 		if r.Sim != nil {
 			r.Sim.Close()
 		}
+	case "gen":
+		fs := flag.NewFlagSet("gen", flag.ExitOnError)
+		seed := fs.Int64("seed", 1, "PRNG seed")
+		blocks := fs.Int("blocks", 50, "number of blocks")
+		profile := fs.String("profile", "lifecycle", "generator profile")
+		opsPath := fs.String("ops", "", "file to write the operation lines to")
+		fs.Parse(os.Args[2:])
+		r := sim.NewRunner(os.Stdout)
+		g := sim.NewGen(*seed, *profile, r)
+		err := g.Setup()
+		for i := 0; err == nil && i < *blocks && r.Sim.Halted == ""; i++ {
+			err = g.Block()
+		}
+		r.Out.Flush()
+		if *opsPath != "" {
+			f, ferr := os.Create(*opsPath)
+			if ferr != nil {
+				fmt.Fprintln(os.Stderr, "hubsim:", ferr)
+				os.Exit(2)
+			}
+			for _, l := range g.Ops {
+				fmt.Fprintln(f, l)
+			}
+			f.Close()
+		}
+		if r.Sim != nil {
+			r.Sim.Close()
+		}
+		if err != nil {
+			fmt.Fprintln(os.Stderr, "hubsim:", err)
+			os.Exit(2)
+		}
 	default:
 		fmt.Fprintln(os.Stderr, "unknown command", os.Args[1])
 		os.Exit(2)
